@@ -50,39 +50,39 @@ def _boxes(tier):
         B.append(kw)
 
     if tier == "quick":
+        # sized for <= ~4 CPU-minutes in total
         box(kind="gaussian", d=1, cutoff=3, hbar=2.0, depth=2, meas=-1, comm=-1)
         box(kind="gaussian", d=2, cutoff=3, hbar=0.5, depth=2, meas=1, comm=1, chunks=2)
-        box(kind="gaussian", d=3, cutoff=2, hbar=3.7, depth=1, meas=0, comm=1, roots=["vac", "mixed"], chunks=4)
-        box(kind="gaussian", d=3, cutoff=2, hbar=1.0, depth=2, meas=-1, comm=-1, roots=["thermal"], chunks=8)
-        box(kind="gaussian", d=4, cutoff=2, hbar=2.0, depth=1, meas=-1, comm=0, roots=["mixed"], chunks=8)
+        box(kind="gaussian", d=3, cutoff=2, hbar=3.7, depth=1, meas=0, comm=0, roots=["vac", "mixed"], chunks=2)
+        box(kind="gaussian", d=4, cutoff=2, hbar=2.0, depth=1, meas=-1, comm=-1, roots=["mixed"], chunks=4)
         for kind in ("purefock", "fock", "passive"):
-            box(kind=kind, d=2, cutoff=3, hbar=2.0, depth=2, meas=1, comm=1)
+            box(kind=kind, d=2, cutoff=3, hbar=2.0, depth=2, meas=1, comm=1, roots=["n11", "sup", "mix"])
+            box(kind=kind, d=2, cutoff=3, hbar=2.0, depth=1, meas=1, comm=0, roots=["n00", "n10", "n02"])
             box(kind=kind, d=2, cutoff=5 if kind != "fock" else 4, hbar=1.0, depth=1, meas=1, comm=1, roots="vac+1")
-            box(kind=kind, d=3, cutoff=3, hbar=2.0, depth=1, meas=1, comm=0, roots=["n000", "n110", "n011", "n200", "sup", "mix"], chunks=2)
-            box(kind=kind, d=3, cutoff=2, hbar=2.0, depth=2, meas=-1, comm=-1, roots=["n100"], chunks=4)
-            box(kind=kind, d=4, cutoff=3, hbar=2.0, depth=1, meas=-1, comm=-1, roots=["n0110"], chunks=6)
+            box(kind=kind, d=3, cutoff=3, hbar=2.0, depth=1, meas=0, comm=0, roots=["n110", "n200", "sup", "mix"], chunks=2)
+        box(kind="purefock", d=4, cutoff=3, hbar=2.0, depth=1, meas=-1, comm=-1, roots=["n0110"], chunks=4)
         box(fam="fermi", d=2, depth=2, meas=1, comm=1)
-        box(fam="fermi", d=3, depth=2, meas=1, comm=1)
-        box(fam="fermi", d=4, depth=1, meas=0, comm=0)
+        box(fam="fermi", d=3, depth=1, meas=1, comm=1)
     else:
         for h, c in ((0.5, 2), (2.0, 4)):
             box(kind="gaussian", d=1, cutoff=c, hbar=h, depth=3, meas=-1, comm=-1, level="thorough")
         for h, c in ((0.5, 3), (3.7, 2)):
             box(kind="gaussian", d=2, cutoff=c, hbar=h, depth=2, meas=1, comm=1, level="thorough", chunks=2)
         box(kind="gaussian", d=2, cutoff=2, hbar=1.0, depth=2, meas=-1, comm=2, roots=["mixed"], chunks=6)
-        box(kind="gaussian", d=3, cutoff=2, hbar=3.7, depth=2, meas=1, comm=1, chunks=12)
-        box(kind="gaussian", d=3, cutoff=3, hbar=1.0, depth=1, meas=1, comm=1, level="thorough", chunks=6)
+        box(kind="gaussian", d=3, cutoff=2, hbar=3.7, depth=2, meas=1, comm=1, roots=["vac", "mixed"], chunks=12)
+        box(kind="gaussian", d=3, cutoff=3, hbar=1.0, depth=1, meas=1, comm=1, level="thorough", roots=["thermal"], chunks=6)
         box(kind="gaussian", d=4, cutoff=2, hbar=2.0, depth=1, meas=0, comm=0, chunks=8)
         for kind in ("purefock", "fock", "passive"):
             for c in (1, 2, 3, 4, 5):
-                box(kind=kind, d=2, cutoff=c, hbar=(2.0, 1.0)[c % 2], depth=2 if c <= 4 else 1, meas=1, comm=1 if c <= 3 else 0,
-                    level="thorough" if c <= 3 else "quick", roots="all" if c <= 3 else "vac+1", chunks=2)
-            box(kind=kind, d=2, cutoff=3, hbar=0.5, depth=2, meas=-1, comm=2, roots=["n11"], chunks=8)
-            box(kind=kind, d=3, cutoff=2, hbar=2.0, depth=2, meas=1, comm=0, roots="vac+1", chunks=8)
+                box(kind=kind, d=2, cutoff=c, hbar=(2.0, 1.0)[c % 2], depth=2 if c <= 3 else 1, meas=1, comm=1 if c <= 3 else 0,
+                    level="thorough" if c <= 2 else "quick", roots="all" if c <= 3 else "vac+1", chunks=2)
+            if kind != "fock":
+                box(kind=kind, d=2, cutoff=3, hbar=0.5, depth=2, meas=-1, comm=2, roots=["n11"], chunks=8)
+            box(kind=kind, d=3, cutoff=2, hbar=2.0, depth=2 if kind == "purefock" else 1, meas=1, comm=0, roots="vac+1", chunks=8 if kind == "purefock" else 2)
             box(kind=kind, d=3, cutoff=3, hbar=2.0, depth=1, meas=1, comm=0, chunks=2)
             box(kind=kind, d=3, cutoff=3, hbar=1.0, depth=1, meas=-1, comm=1, roots=["n110"], chunks=16)
             box(kind=kind, d=3, cutoff=4, hbar=2.0, depth=1, meas=1, comm=0, roots="vac+1", chunks=2)
-            box(kind=kind, d=4, cutoff=3, hbar=2.0, depth=1, meas=0, comm=0, roots=["n0000", "n0110", "sup", "mix"], chunks=8)
+            box(kind=kind, d=4, cutoff=3, hbar=2.0, depth=1, meas=0, comm=0, roots=["n0110", "sup", "mix"], chunks=8)
         box(fam="fermi", d=2, depth=3, meas=2, comm=2)
         box(fam="fermi", d=3, depth=2, meas=2, comm=1)
         box(fam="fermi", d=4, depth=1, meas=1, comm=0)
@@ -154,6 +154,9 @@ def run(ctx, builddir):
                "modes; the variant that keeps the tuple and relabels the preparation with on_modes(pi) is checked at the roots only (sub prep_modes)")
     ctx.assume("fermionic PureFockSimulator: amplitudes change sign under relabelling (ordering convention of the Fock basis), so probability tables and "
                "outcome maps are compared, not amplitudes; fermionic commutation is asserted on the Gaussian simulator (always) and for passive pairs on the Fock simulator")
+    if ctx.tier == "quick":
+        ctx.assume("quick tier is sized for <= ~4 CPU-minutes: depth 2 only at d<=2, d=3 and d=4 at depth 1 (d=4: relabelling only), commutation in the states of depth <= 1 at "
+                   "d=2 and in the roots at d=3, fermionic d<=3; the thorough tier (measured 61 CPU-minutes) carries the deeper boxes and all cutoffs 1..5")
     ctx.assume("general-dyne measurements: Config.rng is replaced by a lattice generator; compared are the (mean, covariance) the sampler is called with and the "
                "conditional states of the lattice outcomes")
     core.pmap(ctx, "mc.checks.c16", "work", items, builddir)
@@ -272,6 +275,10 @@ def _compare_tracks(ctx, rep, kind, ident, tracks, P, a, hist_j, what="state"):
             continue
         ctx.count("relabel_compared")
         bad = R.compare_views(base_view, R.view(st, pi), TOL)
+        if bad is None and a is not None and len(hist_j) >= 1 and len(ctx.samples) < 1 and len(a[1]) >= 2 and pi != tuple(range(len(pi))):
+            ctx.sample({"relation": "relabel", "simulator": SIM_CLASS[kind], "root": rep.base["root"], "cutoff": rep.base["cutoff"], "hbar": rep.base["hbar"],
+                        "program": hist_j + [_tj(a)], "pi": list(pi), "relabelled_program": [_tj(R.relabel(tuple(t), pi)) for t in hist_j] + [_tj(R.relabel(a, pi))],
+                        "observables_compared": sorted(base_view)})
         if bad is not None:
             ok = False
             pm = R.relabel(a, pi)[1] if a is not None else pi
@@ -449,6 +456,9 @@ def _commute(ctx, rep, sim, kind, d, cutoff, st, children, actions, hist_j, exac
             bad = R.compare_views(R.view(ab, idn, internal=False), R.view(ba, idn, internal=False), TOL, mask=mask)
             ctx.count("commute_pairs_compared")
             ctx.count("commute_pairs_compared/" + mode[0])
+            if bad is None and len(ctx.samples) < 2 and len(a[1]) + len(b[1]) >= 3 and mode[0] == ("sectors" if kind in ("purefock", "fock") else "all"):
+                ctx.sample({"relation": "commute", "simulator": SIM_CLASS[kind], "root": rep.base["root"], "cutoff": cutoff, "history": hist_j,
+                            "pair": [K.tjson(a), K.tjson(b)], "compared": mode[0] if mask is None else "sectors < %d" % mode[1]})
             if bad is not None:
                 kinds = sorted([K.gate_class(a[0]), K.gate_class(b[0])])
                 rep.report({"sub": "commute", "pair_kinds": "+".join(kinds), "observable": bad[0], "compared": mode[0]},
